@@ -349,11 +349,20 @@ class _Quantifier(_UnaryOperator):
         super().reset_bounds()
         for neuron in self.neurons:
             neuron.reset_bounds()
+        self._stack_neurons()
 
     def flush(self):
         super().flush()
         for neuron in self.neurons:
             neuron.flush()
+        self._stack_neurons()
+
+    def _stack_neurons(self):
+        r"""One row per group of a partially quantified formula, kept in step with `groundings`."""
+        if len(self.neurons) > 0:
+            self.neuron.bounds_table = torch.vstack(
+                [neuron.get_data() for neuron in self.neurons]
+            )
 
 
 class Not(_UnaryOperator):
